@@ -224,8 +224,8 @@ def check_2d(ctx, m, rng, full=True):
         ctx.check(np.array_equal(_np(B.slim.native), exp_nat), "array2d.native_slim_native", mask=m)
         # structures derived from a native-stored one (arithmetic that does not map 0 to 0 acts on the whole stored
         # array): their slim / native forms must still list the unmasked values and zero the masked positions
-        for nm, Dv, ref_nat in (("native+1.5", B.native + 1.5, nat + 1.5), ("2-native", 2.0 - B, 2.0 - nat),
-                                ("grid_native+0.5", aa.Grid2D(values=gnat.copy(), mask=mask, store_native=True) + 0.5, gnat + 0.5)):
+        for nm, Dv, ref_nat in (() if not full else (("native+1.5", B.native + 1.5, nat + 1.5), ("2-native", 2.0 - B, 2.0 - nat),
+                                ("grid_native+0.5", aa.Grid2D(values=gnat.copy(), mask=mask, store_native=True) + 0.5, gnat + 0.5))):
             zm = m if ref_nat.ndim == 2 else m[:, :, None]
             ctx.check(np.array_equal(_np(Dv.native), np.where(zm, 0.0, ref_nat)) and np.array_equal(_np(Dv.slim), ref_nat[~m]),
                       "derived.native_zero_fill", mask=m, how=nm, got=lambda: _np(Dv.native))
